@@ -151,6 +151,9 @@ func (m12Agent) Forward(req []byte) ([]byte, error) {
 	if m12Flip() {
 		return nil, errors.New("e")
 	}
+	if m12Flip() {
+		return []byte{}, nil // the upstream agent answered with an empty frame: still one response frame
+	}
 	return []byte{7}, nil
 }
 func (m12Agent) AddHardCert(ssh.PublicKey, string) error { return m12Err() }
